@@ -13,10 +13,11 @@ import hashlib, json, os, subprocess
 from concurrent.futures import ThreadPoolExecutor
 from vlib import core
 
-# deviations found in the real code, and hypothetical ones: DEVS[4], DEVS[5] (vacuity guards of the in-place write steps), DEVS[7]
+# deviations found in the real code, and hypothetical ones: DEVS[4], DEVS[5] (vacuity guards of the in-place write steps), DEVS[7], DEVS[8]
 DEVS = ["hash.union_order_dependent", "hash.meta_iteration_order", "dup.meta_values_shared", "dup.enum_values_shared",
         "dup.meta_backing_array_shared", "dup.required_backing_array_shared", "hash.recursive_reference_is_prefix",
-        "hash.memo_hit_is_empty_object"]      # the last one hypothetical too (vacuity guard of the sharing transformations)
+        "hash.memo_hit_is_empty_object",      # hypothetical too (vacuity guard of the sharing transformations)
+        "dup.attribute_memo_records_original"]  # hypothetical (vacuity guard of the attributes held by two objects)
 REC = DEVS[6]
 SHARING = ("unshare", "redir", "hollow")
 DRIVER = "drivers/expr"
@@ -26,7 +27,7 @@ TRACE = ("trace/Trace_TypeGraph", "trace/Trace_TypeGraph.cfg")
 # ------------------------------------------------------------------ decoding of TLC's positional arrays
 def dec_attr(a):
     return {"name": a[0], "ref": {"p": a[1], "n": a[2]}, "desc": a[3], "req": a[4], "val": a[5], "meta": a[6],
-            "tags": {"name": a[7], "type": a[8]}, "x": a[9], "enum": a[10]}
+            "tags": {"name": a[7], "type": a[8]}, "x": a[9], "enum": a[10], "al": a[11]}
 
 
 def dec_g(a):
@@ -290,7 +291,8 @@ def compare_dup(ctx, v, o, nontrivial):
         return
     for f, want in DUP_FIELDS:
         if (o["wide"] or f == "copyeq") and o[f] != want:
-            report(ctx, "C13/dup/copy/%s" % f, "after expr.Dup: %s = %r, expected %r" % (f, o[f], want), inp, {"observed": o})
+            al = "/attribute-held-by-two-objects" if any(a.get("al") for n in g["nodes"] for a in n["attrs"]) else ""
+            report(ctx, "C13/dup/copy/%s%s" % (f, al), "after expr.Dup: %s = %r, expected %r" % (f, o[f], want), inp, {"observed": o})
             return
     if o["unch"] != pred["unch"]:
         k = next(i for i, (a, b) in enumerate(zip(o["unch"], pred["unch"])) if a != b)
@@ -319,6 +321,10 @@ def gen_runs(quick):
         ("hash 4 attributes", dict(N=2, K=4, Leaves='{"string"}', UKinds='{"user"}', Modes='{"hash"}', Decos="{0}")),
         ("dup N<=2", dict(N=2, K=2, Leaves='{"string"}', UKinds=both, Modes='{"dup"}', Decos="{0, 3}", Script='"paired"')),
         ("dup N<=3 K=1", dict(N=3, K=1, Leaves='{"string"}', UKinds='{"user"}', Modes='{"dup"}', Decos="{3}", Script='"copyfirst"')),
+        # an attribute held by two objects (what Extend leaves behind once a design is finalized): every graph of <= 3 nodes after
+        # one merge of an object's attributes into another object; copy + one step on either side, and the hash direction
+        ("aliased attributes N<=3", dict(N=3, K=2, Leaves='{"string"}', UKinds='{"user"}', Modes='{"hash", "dup"}', Decos="{0, 3}",
+                                         Shapes='"aliased"', MaxSteps=1, Script='"paired"')),
     ]
     if quick:
         # every graph of <= 4 nodes in which a non-recursive user type is referenced from two places (through attributes,
@@ -334,6 +340,8 @@ def gen_runs(quick):
             ("dup N<=3", dict(N=3, K=2, Leaves='{"string"}', UKinds='{"user"}', Modes='{"dup"}', Decos="{3}", Script='"copyfirst"')),
             ("dup N<=3 results", dict(N=3, K=2, Leaves='{"string"}', UKinds='{"result"}', Modes='{"dup"}', Decos="{2}", Script='"paired"')),
             # 5 nodes: every graph with DAG sharing, the sharing transformations only
+            ("aliased attributes N<=4", dict(N=4, K=2, Leaves='{"string"}', UKinds='{"user", "result"}', Modes='{"hash", "dup"}', Decos="{0, 3}",
+                                             Shapes='"aliased"', MaxSteps=2, Script='"paired"')),
             ("hash sharing N<=5", dict(N=5, K=2, Leaves='{"string"}', UKinds='{"user"}', Modes='{"hash"}', Decos="{0}",
                                        Shapes='"shared"', Ops='"sharing"')),
         ]
@@ -381,6 +389,9 @@ def run(ctx):
     ctx.assumptions += [
         "only user types are shared or recursive and every cycle passes through an object (what the DSL can build); unrolled vs folded "
         "recursive types and shared anonymous types are never compared",
+        "an attribute held by two objects (AttributeExpr.Merge / Extend at Finalize) has a leaf or a user type as its type; expr.Dup gives "
+        "every holder an attribute of its own (what DupAttribute does: the statement does not say whether the copy keeps that sharing), "
+        "and 'structurally equal' is judged without it",
         "views, bases, references, default values and examples of attributes are outside the modelled type graph (ResultTypeExpr.Dup shares "
         "the views by design); enum values and validation bounds are treated as immutable scalars",
         "no transformation renames a union, tags a user type's own attribute or turns a user type into a result type: the documentation "
@@ -394,7 +405,8 @@ def run(ctx):
     guards = [(d, dict(small, Modes='{"hash"}', Deviations='{"%s"}' % d)) for d in DEVS[:2]]
     guards += [(d, dict(small, Modes='{"dup"}', Decos="{3}", Deviations='{"%s"}' % d)) for d in DEVS[2:6]]
     guards += [(REC, dict(small, N=2, K=1, Modes='{"hash"}', Deviations='{"%s"}' % REC)),
-               (DEVS[7], dict(small, N=3, K=2, Modes='{"hash"}', Shapes='"shared"', Ops='"sharing"', Deviations='{"%s"}' % DEVS[7]))]
+               (DEVS[7], dict(small, N=3, K=2, Modes='{"hash"}', Shapes='"shared"', Ops='"sharing"', Deviations='{"%s"}' % DEVS[7])),
+               (DEVS[8], dict(small, N=3, K=2, Modes='{"dup"}', Decos="{3}", Shapes='"aliased"', MaxSteps=1, Deviations='{"%s"}' % DEVS[8]))]
     with ThreadPoolExecutor(max_workers=len(guards)) as ex:
         for f in [ex.submit(ctx.mc_expect_violation, "mc/MC_TypeGraph", consts=c, label="MC dev " + d, workers=2) for d, c in guards]:
             f.result()
